@@ -126,6 +126,28 @@ F18_WITNESSES = {
 }
 
 
+def _redeclare(s, name):
+    import re
+    body = re.sub(r"^\s*<\?xml[^>]*\?>", "", s, count=1)
+    return (f'<?xml version="1.0" encoding="{name}"?>' if name else "") + body
+
+
+def _reprefix(s):
+    import re
+    return re.sub(r"(?<=[<\s/])manifest:(?=[A-Za-z-]+[\s=/>])", "m:", s).replace("xmlns:manifest=", "xmlns:m=")
+
+
+MANIFEST_ENCODINGS = [
+    ("UTF-16 LE with BOM, declared", lambda s: b"\xff\xfe" + _redeclare(s, "UTF-16").encode("utf-16-le")),
+    ("UTF-16 BE with BOM, declared", lambda s: b"\xfe\xff" + _redeclare(s, "UTF-16").encode("utf-16-be")),
+    ("UTF-16 LE with BOM, no XML declaration", lambda s: b"\xff\xfe" + _redeclare(s, None).encode("utf-16-le")),
+    ("UTF-8 with BOM", lambda s: b"\xef\xbb\xbf" + _redeclare(s, "UTF-8").encode("utf-8")),
+    ("ISO-8859-1, declared", lambda s: _redeclare(s, "ISO-8859-1").encode("latin-1", "xmlcharrefreplace")),
+    ("UTF-8, namespace prefix m: instead of manifest:", lambda s: _reprefix(s).encode("utf-8")),
+    ("UTF-8, no XML declaration", lambda s: _redeclare(s, None).encode("utf-8")),
+]
+
+
 def manifest_has_encryption_element(data):
     """Ground truth of the spec predicate: parse the manifest, look for an element named encryption-data."""
     import xml.etree.ElementTree as ET
@@ -473,6 +495,22 @@ def sweep():
             res = run(read_archive, zip_bytes(mem[::-1] if order else mem), "x.zip")
             if res[0] != "encrypted" or res[1] != 0:
                 return fail("read_archive(zip)", {"members": [m_[0] for m_ in (mem[::-1] if order else mem)], "flagged": skipped}, "encrypted (0 results before)", str(res))
+    # 3b. the flag decides, whatever the compression method field says: WinZip AES (AE-1/AE-2) members carry method 99 (real
+    #     method in the 0x9901 extra field); PKWARE strong encryption / other writers combine the flag with any method id.
+    #     An unflagged member with a method zipfile cannot inflate is a failed archive, never an encrypted one.
+    for method in (99, 0, 8, 9, 12, 14, 93, 95, 98, 1):
+        for pos in (0, 1):
+            for flagged in (True, False):
+                if not flagged and method in (0, 8, 12, 14):
+                    continue                                  # (a stored payload declared as deflate/bzip2/lzma: read errors, not the point)
+                mem = [("a.txt", b"plain text", 0, None)]
+                mem.insert(pos, ("secret.txt", b"0123456789abcdef" * 3, 1 if flagged else 0, method))
+                res = run(read_archive, zip_bytes(mem), "x.zip")
+                inp = {"members": [m_[0] for m_ in mem], "member": "secret.txt", "flag_bit_0": flagged, "compression_method_field": method}
+                if flagged and (res[0] != "encrypted" or res[1] != 0):
+                    return fail("read_archive(zip)", inp, "encrypted (0 results before)", str(res))
+                if not flagged and res[0] == "encrypted":
+                    return fail("read_archive(zip)", inp, "not rejected as encrypted (no member has flag bit 0)", str(res))
     res = run(read_archive, zip_bytes([("d/", b"", 1, None), ("d/a.txt", b"plain", 0, None)]), "x.zip")      # flag on a directory entry only
     if res[0] == "encrypted":
         return fail("read_archive(zip)", {"members": "directory entry with flag bit 0, plain file"}, "not encrypted", str(res))
@@ -508,6 +546,21 @@ def sweep():
             res = run(extractor_for(ext), data, ext)
             if res[0] != want or (want == "encrypted" and res[1] != 0):
                 return fail("extractor:" + ext, {"fixture": fx, "manifest_has_encryption_data": want == "encrypted"}, want, str(res))
+        # the manifest is an ordinary XML document: the same two packages with the manifest serialised in another encoding
+        # (BOM / encoding declaration; the element is there for the XML parser, whatever the raw bytes look like)
+        for enc_name, recode in MANIFEST_ENCODINGS:
+            for edit, want in ((lambda m: m, "ok"), (_inject_enc, "encrypted")):
+                data = rebuild_zip(src, lambda name, d, e=edit, rc=recode: rc(e(d.decode("utf-8"))) if name == "META-INF/manifest.xml" else d)
+                try:
+                    truth = manifest_has_encryption_element(data)
+                except Exception:  # noqa -- this parser build does not know the encoding: nothing to compare with
+                    continue
+                if truth != (want == "encrypted"):
+                    return fail("builder", {"fixture": fx, "manifest_encoding": enc_name}, "re-encoded manifest keeps its elements", "builder broken")
+                res = run(extractor_for(ext), data, ext)
+                if (res[0] == "encrypted") != (want == "encrypted") or (want == "encrypted" and res[1] != 0):
+                    return fail("extractor:" + ext, {"fixture": fx, "manifest_encoding": enc_name, "manifest_has_encryption_data": want == "encrypted"},
+                                want if want == "encrypted" else "not rejected as encrypted", str(res))
         if ext in ("a.odt", "a.ods"):      # manifests larger than 64 KiB (documents with many pictures)
             for encrypted in (False, True):
                 data = rebuild_zip(src, manifest_edit(lambda m, e=encrypted: big_manifest(m, e)))
@@ -669,7 +722,16 @@ def embedded_pdfs(only=None):
     import json
     import subprocess
     import sys
+    import base64
     docs = json.load(open(os.path.join(os.path.dirname(os.path.abspath(__file__)), "C08_pdfs.json")))
+    # /V 4 documents name their cipher through crypt filters: /StmF and /StrF name an entry of /CF, and a reader resolves
+    # whatever name they give.  The same stored documents with the filter called something else than /StdCF (same length:
+    # no cross-reference offset moves; the /Encrypt dictionary itself is never encrypted).
+    for key in [k for k in docs if k.split("|")[0] in ("AES-128", "AES-128@64")]:
+        raw = zlib.decompress(base64.b64decode(docs[key]))
+        if raw.count(b"/StdCF") == 3:
+            algo, pw = key.split("|")
+            docs[algo + "+filter-named-AESCF|" + pw] = base64.b64encode(zlib.compress(raw.replace(b"/StdCF", b"/AESCF"))).decode()
 
     def read(key):
         pr = subprocess.run([sys.executable, "-c", _PDF_READER, REPO], input=docs[key], capture_output=True, text=True, timeout=120)
@@ -691,6 +753,8 @@ def embedded_pdfs(only=None):
         r = got[key]
         base = got["plain64" if "@64" in algo else "plain"]
         inp = {"stored_pdf": "replay/C08_pdfs.json[" + key + "]", "algorithm": algo, "user_password": "non-empty" if pw else "empty", "process": "fresh"}
+        if "+filter-named" in algo:
+            inp["crypt_filter"] = "/CF << /AESCF << /CFM /AESV2 >> >> /StmF /AESCF /StrF /AESCF (bytes /StdCF replaced in the stored document)"
         if "@64" in algo:
             inp["content_stream"] = "80 bytes = 5 whole AES blocks (PKCS#7 adds a full padding block)"
         if pw and (r["verdict"] != "encrypted" or r["n"] != 0):
